@@ -43,6 +43,13 @@ func (f *Fboundp) Call(s *slip.Scope, args slip.List, depth int) slip.Object {
 	if !ok {
 		slip.TypePanic(s, depth, "symbol", args[0], "symbol")
 	}
+	if pkg, _, _ := slip.UnpackName(string(sym)); pkg != nil {
+		// pkg:name and pkg::name as when calling the function.
+		if slip.FindFunc(string(sym)) != nil {
+			return slip.True
+		}
+		return nil
+	}
 	if slip.CurrentPackage.GetFunc(string(sym)) != nil {
 		return slip.True
 	}
